@@ -469,10 +469,23 @@ pub fn run(tier: Tier) -> i32 {
                     }
                 }
             }
+            // longer non-overlapping copies that end exactly at (one before, one after) the end of the window, in the first,
+            // second and third lap (lap encoded in j: j + 10000 * (lap - 1))
+            for lap in 0..3usize {
+                for (l, d) in [(16usize, 16u32), (16, 300), (40, 300), (200, 300), (273, 273), (273, 4096), (18, 4000)] {
+                    for dj in [0usize, 1, 2] {
+                        let j = l + dj - 1;
+                        if j >= 1 {
+                            items.push((j + 10000 * lap, l, d, 4096));
+                        }
+                    }
+                }
+            }
             par_for(items.len() as u64, |i| {
                 let (j, l, d, hd) = items[i as usize];
-                // grow output to exactly 4096 - j with varied content
-                let target = 4096 - j;
+                let (lap, j) = (j / 10000, j % 10000);
+                // grow output to exactly 4096 * (lap + 1) - j with varied content
+                let target = 4096 * (lap + 1) - j;
                 let mut prog: Vec<Sym> = (0..64u32).map(|b| Sym::L(((b * 67 + 3) & 0xFF) as u8)).collect();
                 let mut produced = 64usize;
                 let mut k = 0u32;
@@ -493,6 +506,8 @@ pub fn run(tier: Tier) -> i32 {
                 prog.push(Sym::M(d, l as u32));
                 prog.push(Sym::L(0xEE));
                 prog.push(Sym::R(0, 3));
+                // what follows reads back across the wrap point at short and long distances
+                prog.extend([Sym::M(1, 5), Sym::L(0x78), Sym::M(2, 9), Sym::M(4000, 30), Sym::M(15, 40)]);
                 let var = if i % 2 == 0 { Variant::Known { dict: hd } } else { Variant::Marker { dict: hd } };
                 if let Some((b, _)) = build(3, 0, 2, &prog, var, 4096) {
                     ctx.eval(1);
@@ -538,7 +553,7 @@ pub fn run(tier: Tier) -> i32 {
         if ctx.may_start(name) {
             let t0 = Instant::now();
             let mut items = Vec::new();
-            for dict in tier.pick(vec![65537u32, 100000], vec![65537u32, 70000, 100000, 131072, 200000]) {
+            for dict in tier.pick(vec![65537u32, 100000, 0x18_0000], vec![65537u32, 70000, 100000, 131072, 200000, 0x10_0001, 0x18_0000, 0x40_0000]) {
                 for total in [dict as usize - 1, dict as usize, dict as usize + 1, 2 * dict as usize + 77, 3 * dict as usize + 5] {
                     for v in 0..3 {
                         items.push((dict, total, v));
